@@ -124,6 +124,24 @@ F9Case(i) == LET j == i - 1
                      "f(" \o F9Vals[x + 1] \o "," \o F9Vals[y + 1] \o ")", "")
 NF9 == Len(F9Bodies) * Len(F9Vals) * Len(F9Vals)
 
+(* ---- F10: # applied to string literals and character constants of every encoding prefix whose
+   contents hold \ " ' and escape sequences (6.10.3.2p2: a \ is inserted before each " and \ of a string
+   literal or character constant — whatever its prefix) *)
+F10StrPre == <<"", "L", "u", "U", "u8">>
+F10ChrPre == <<"", "L", "u", "U">>
+F10StrBody == <<"a", "\\n", "\\\\", "\\\"", "'", "a\\tb\\\\", "">>
+F10ChrBody == <<"a", "\\n", "\\\\", "\\'", "\"">>
+F10NS == Len(F10StrPre) * Len(F10StrBody)
+F10NC == Len(F10ChrPre) * Len(F10ChrBody)
+F10Lit(k) ==       \* k in 0 .. F10NS + F10NC - 1
+  IF k < F10NS THEN F10StrPre[(k \div Len(F10StrBody)) + 1] \o "\"" \o F10StrBody[(k % Len(F10StrBody)) + 1] \o "\""
+  ELSE LET j == k - F10NS IN F10ChrPre[(j \div Len(F10ChrBody)) + 1] \o "'" \o F10ChrBody[(j % Len(F10ChrBody)) + 1] \o "'"
+F10Case(i) == LET j == i - 1
+                  lit == F10Lit(j \div 2)
+              IN Case("F10", i, <<Fun("S", <<"x">>, "#x"), Fun("XS", <<"x">>, "S(x)")>>,
+                      IF j % 2 = 0 THEN "S(" \o lit \o ")" ELSE "XS(1 " \o lit \o "  + " \o lit \o ")", "")
+NF10 == 2 * (F10NS + F10NC)
+
 (* ---- F3: arguments that are themselves invocations (complete, or completed late), to depth 2 *)
 F3Atoms == <<"1", "f", "E", "g", "LP 1">>
 NA3 == Len(F3Atoms)
@@ -270,8 +288,27 @@ PTCase(i) ==
      ELSE Case("PT", i, <<Obj("E", "")>>, Adj(a, "E") \o " " \o Adj(b, "E") \o " " \o c, "")
 NPT == NT * NT * NT * 3
 
+(* ---- PS: SEQUENCES of two adjacency cases in one file (each case is replayed in a process of its own, so
+   nothing but the first pair precedes the second): every ordered pair of (a1,b1),(a2,b2) over
+   representatives of the classes the separation decision depends on — last character of a, whether a is
+   a pp-number, first character of b.  A printer that carries state from one decision to the next
+   (a cache keyed by less than the decision depends on) shows here and nowhere in P/PT. *)
+PSA == <<"e", "0xe", "E", "0xE", ".", "1.", "x", "1">>
+PSB == <<"+", "-", "x", "1", ".", "=">>
+PSCase(i) == LET j == i - 1
+                 b2 == PSB[(j % Len(PSB)) + 1]
+                 a2 == PSA[((j \div Len(PSB)) % Len(PSA)) + 1]
+                 b1 == PSB[((j \div (Len(PSB) * Len(PSA))) % Len(PSB)) + 1]
+                 a1 == PSA[(j \div (Len(PSB) * Len(PSA) * Len(PSB))) + 1]
+             IN Case("PS", i, <<Fun("ID", <<"x">>, "x")>>, "ID(" \o a1 \o ")" \o b1 \o " ; ID(" \o a2 \o ")" \o b2, "")
+NPS == Len(PSA) * Len(PSB) * Len(PSA) * Len(PSB)
+
+(* FS: the small families that are always run completely (F5, F9, F10), enumerated by one TLC run *)
+NFS == NF5 + NF9 + NF10
+FSCase(i) == IF i <= NF5 THEN F5Case(i) ELSE IF i <= NF5 + NF9 THEN F9Case(i - NF5) ELSE F10Case(i - NF5 - NF9)
+
 NCasesOf(f) == CASE f = "F1" -> NF1 [] f = "F2" -> NF2 [] f = "F3" -> NF3 [] f = "F4" -> NF4
-                 [] f = "F5" -> NF5 [] f = "F6" -> NF6 [] f = "F7" -> NF7 [] f = "F8" -> NF8 [] f = "F9" -> NF9 [] f = "P" -> NP [] f = "PT" -> NPT
+                 [] f = "F5" -> NF5 [] f = "F6" -> NF6 [] f = "F7" -> NF7 [] f = "F8" -> NF8 [] f = "F9" -> NF9 [] f = "F10" -> NF10 [] f = "P" -> NP [] f = "PT" -> NPT [] f = "PS" -> NPS [] f = "FS" -> NFS
 CaseAt(f, i) == CASE f = "F1" -> F1Case(i) [] f = "F2" -> F2Case(i) [] f = "F3" -> F3Case(i) [] f = "F4" -> F4Case(i)
-                  [] f = "F5" -> F5Case(i) [] f = "F6" -> F6Case(i) [] f = "F7" -> F7Case(i) [] f = "F8" -> F8Case(i) [] f = "F9" -> F9Case(i) [] f = "P" -> PCase(i) [] f = "PT" -> PTCase(i)
+                  [] f = "F5" -> F5Case(i) [] f = "F6" -> F6Case(i) [] f = "F7" -> F7Case(i) [] f = "F8" -> F8Case(i) [] f = "F9" -> F9Case(i) [] f = "F10" -> F10Case(i) [] f = "P" -> PCase(i) [] f = "PT" -> PTCase(i) [] f = "PS" -> PSCase(i) [] f = "FS" -> FSCase(i)
 =============================================================================
